@@ -372,6 +372,47 @@ fn open_image_and_observe(ctx: &mut Ctx, img: &Image, plan: &QPlan) -> Result<(Q
     res
 }
 
+/// Second recovery path (C02): open the same image with the recovery budget forced to zero so
+/// that the database comes up read-only degraded, run `PRAGMA recover_wal` (streaming recovery)
+/// and observe. Ok(None) when the image has no WAL frames to recover (nothing to compare).
+fn observe_via_streaming_recovery(ctx: &mut Ctx, img: &Image, plan: &QPlan) -> Result<Option<QObs>, String> {
+    ctx.img_seq += 1;
+    let dir = simcore::pool::child_scratch().join(format!("img{}", ctx.img_seq));
+    simdisk::write_image(img, &dir.to_string_lossy());
+    let _g = simdisk::HarnessGuard::enter();
+    let dbpath = dir.join("db");
+    simdisk::set_knob("recovery_available", Some(0));
+    let opened = guarded(|| turdb::Database::open(&dbpath));
+    simdisk::set_knob("recovery_available", None);
+    let res = (|| {
+        let db = match opened {
+            Err(site) => return Err(format!("PANIC at {} in Database::open (degraded)", site)),
+            Ok(Err(e)) => return Err(format!("open (degraded) failed: {:#}", e)),
+            Ok(Ok(db)) => db,
+        };
+        let live = Live { path: dbpath.clone(), cfg: DbConfig::durable(), sessions: vec![Some(db)] };
+        let mode = match live.query(0, "PRAGMA database_mode") {
+            Actual::Ok(ARes::Text(t)) => t,
+            other => return Err(format!("PRAGMA database_mode: {}", other.brief())),
+        };
+        if !mode.contains("degraded") {
+            let _ = guarded(|| drop(live));
+            return Ok(None);
+        }
+        match live.query(0, "PRAGMA recover_wal") {
+            Actual::Ok(_) => {}
+            other => return Err(format!("PRAGMA recover_wal: {}", other.brief())),
+        }
+        let obs = live_obs(&live, 0, plan);
+        if let Err(site) = guarded(|| drop(live)) {
+            return Err(format!("PANIC at {} while dropping the database after PRAGMA recover_wal", site));
+        }
+        Ok(Some(obs))
+    })();
+    let _ = std::fs::remove_dir_all(&dir);
+    res
+}
+
 /// Bag intersection (rows present in both, with multiplicity).
 fn bag_intersect(a: &[Row], b: &[Row]) -> Vec<Row> {
     let mut rest: Vec<Row> = b.to_vec();
@@ -397,6 +438,7 @@ fn verify_images(
     in_txn: bool,
     first_ordinal: u64,
     after_checkpoint: bool,
+    since_open: &str,
 ) {
     if images.is_empty() {
         return;
@@ -448,6 +490,7 @@ fn verify_images(
                 ("model", img.model.as_str().split('(').next().unwrap_or("").to_string()),
                 ("wal", ctx.swarm.cfg.wal.to_string()),
                 ("after_checkpoint", after_checkpoint.to_string()),
+                ("since_open", since_open.to_string()),
                 ("auto_ckpt", ctx.swarm.cfg.checkpoint_threshold.is_some().to_string()),
             ]
         };
@@ -471,11 +514,45 @@ fn verify_images(
                     sig.push(("site", site.split(' ').next().unwrap_or("").to_string()));
                 }
                 ctx.violate("C02", "open-failed", &sig, format!("{}: {}", where_, e), Some(pinned.clone()));
+                if op.is_ddl() && !acked.tables.is_empty() {
+                    ctx.violate("C40", "open-failed-during-ddl", &sig, format!("{}: {}", where_, e), Some(pinned.clone()));
+                }
                 if !acked.tables.is_empty() {
                     ctx.violate("C01", "acked-data-unreachable", &sig, format!("{}: {}", where_, e), Some(pinned));
                 }
             }
             Ok((obs, _)) => {
+                // both recovery paths must produce the same state (sampled: every 3rd image)
+                let pinned_replay = ctx.crash.as_ref().and_then(|c| c.point.as_ref()).is_some();
+                if pinned_replay || img.hash % 3 == 0 {
+                    ctx.out.count("recovery_paths_compared", 1);
+                    match observe_via_streaming_recovery(ctx, img, &plan) {
+                        Ok(None) => ctx.out.count("recovery_paths_no_wal", 1),
+                        Ok(Some(obs2)) => {
+                            if let Some(d) = diff_obs(&obs, &obs2, &plan) {
+                                let mut sig = base_sig(ctx);
+                                sig.push(("what", d.what.clone()));
+                                let ft = accept.last().unwrap_or(acked).tables.get(&d.table).or(acked.tables.get(&d.table));
+                                sig.push(("features", table_features(ft)));
+                                ctx.violate(
+                                    "C02",
+                                    "recovery-paths-differ",
+                                    &sig,
+                                    format!("{}: automatic recovery at open and PRAGMA recover_wal disagree (expected = automatic path): {}", where_, d.detail),
+                                    Some(pinned.clone()),
+                                );
+                            }
+                        }
+                        Err(e) => {
+                            let mut sig = base_sig(ctx);
+                            sig.push(("how", if e.starts_with("PANIC") { "panic".into() } else { "error".into() }));
+                            if let Some(site) = panic_site_in(&e) {
+                                sig.push(("site", site));
+                            }
+                            ctx.violate("C02", "streaming-recovery-failed", &sig, format!("{}: {}", where_, e), Some(pinned.clone()));
+                        }
+                    }
+                }
                 if exp_accept.iter().any(|e| diff_obs(e, &obs, &plan).is_none()) || diff_obs(&exp_acked, &obs, &plan).is_none() {
                     continue;
                 }
@@ -568,6 +645,9 @@ fn verify_images(
                 sig.push(("features", table_features(d.as_ref().and_then(|d| full.tables.get(&d.table).or(acked.tables.get(&d.table))))));
                 if let Some((v1, d1)) = &c01 {
                     ctx.violate("C01", v1, &sig, format!("{}: {}", where_, d1), Some(pinned.clone()));
+                    if op.is_ddl() && v1 == "acked-table-lost" {
+                        ctx.violate("C40", "pre-existing-table-lost", &sig, format!("{}: {}", where_, d1), Some(pinned.clone()));
+                    }
                 }
                 ctx.violate(
                     "C02",
@@ -926,6 +1006,29 @@ pub fn run_history(ctx: &mut Ctx, src: &mut Source, seed: u64) -> Option<History
             ctx.stop = true;
         }
 
+        // ---- C40(a): persisted catalog vs model after every successful DDL statement
+        if op.is_ddl() && effect_applied && !model.any_txn() && (ctx.profile == "crash" || ctx.profile == "ddl") {
+            let errs = {
+                let _g = simdisk::HarnessGuard::enter();
+                guarded(|| super::catcheck::check_catalog(&dbpath, &model.committed, &simcore::pool::child_scratch()))
+            };
+            ctx.out.count("catalog_roundtrips_checked", 1);
+            match errs {
+                Err(site) => {
+                    let mut sig = sig_base.clone();
+                    sig.push(("site", site.clone()));
+                    ctx.violate("C40", "catalog-load-panic", &sig, format!("after {}: loading the persisted catalog panicked at {}", desc, site), None);
+                }
+                Ok(errs) if !errs.is_empty() => {
+                    let mut sig = sig_base.clone();
+                    let kind = if errs[0].contains("round trip") { "roundtrip" } else if errs[0].contains("missing") { "missing" } else { "field" };
+                    sig.push(("what", kind.to_string()));
+                    ctx.violate("C40", "catalog-mismatch", &sig, format!("after {}: {}", desc, errs.join("; ")), None);
+                }
+                _ => {}
+            }
+        }
+
         // ---- crash images of this step
         if !images.is_empty() {
             let mut accept: Vec<DbState> = vec![];
@@ -940,7 +1043,8 @@ pub fn run_history(ctx: &mut Ctx, src: &mut Source, seed: u64) -> Option<History
             }
             let acked = committed_before.clone();
             let ckpt = after_checkpoint || matches!(op, Op::Checkpoint | Op::PragmaCheckpoint | Op::CloseReopen);
-            verify_images(ctx, images, step_idx, op, &acked, &accept, in_txn_before, first_ordinal, ckpt);
+            let so = since_open.join("+");
+            verify_images(ctx, images, step_idx, op, &acked, &accept, in_txn_before, first_ordinal, ckpt, &so);
         }
         let _ = crash_profile;
 
